@@ -140,7 +140,8 @@ def expected_matches(pid, exp, got):
 
 def run(ctx):
     ctx.extract()
-    ctx.build_lean(["GomlVerif.Props.C01"] if os.path.exists(os.path.join(vlib.LEAN, "GomlVerif/Props/C01.lean")) else [])
+    ctx.build_lean([m for m in ["GomlVerif.Props.C01", "GomlVerif.Props.C01src"]
+                    if os.path.exists(os.path.join(vlib.LEAN, m.replace(".", "/") + ".lean"))])
     if not ctx.build_harness():
         return ctx.finish("translation_validation", {"programs": 0, "disagreements_checked": 0, "samples": []}, [], "lake build")
     progs, feats = collect(ctx)
